@@ -46,6 +46,14 @@
 //!      receipts (N in {65532, 65533} quick, 65530..=65534 thorough) followed by each of 16
 //!      tails, as script and inside contract A; plus, in (a), every letter injected into real
 //!      VMs holding 65531.. receipts.
+//!  (g) transaction shapes: every script transaction over input sets (all subsets of
+//!      {coin(base), coin(X), message-coin, data-carrying message with an amount}) x contract
+//!      inputs A,B present/absent x output sets (all subsets of {change(base), change(X),
+//!      2 variable, coin(base), coin(X)}) x max_fee {0, 100000} x gas price {0, 10^6} x 10
+//!      programs (ret, rvrt, div by zero, invalid instruction, out-of-gas loop, tr, tro, smo,
+//!      call-B, call-A) = 40,960 cases. Validity is decided by the reference
+//!      (`into_checked_basic`, `into_ready`; refused shapes are counted). Valid ones run
+//!      through `Interpreter::transact`, `Transactor::transact` and `MemoryClient::transact`.
 //!
 //! ORACLE (from the statement only):
 //!  * no host panic (catch_unwind) anywhere                  -> `C29:host-panic:<opcode|entry>:<location>`
